@@ -27,7 +27,7 @@ BOUNDS = {"quick": "pairings: 1..10 chains (tight), 1..7 (uniform); exchanges / 
 TECHNIQUE = "symbolic execution of the real ParallelTempering / tempering_process code under an in-process baton scheduler with forked interleavings (z3 per-path queries); advance() arithmetic by AST-to-SMT integer encoding with loop summarisation, decided for all n by z3; counterexamples replayed"
 ASSUMPTIONS = [
     "pipes are FIFO and reliable, Event.set is visible to later is_set, join returns when the worker function returns",
-    "outside: real OS processes, pickling of chains, poll time-outs, OS scheduler fairness, ParallelTempering.run_for's clock loop",
+    "outside: real OS processes, pickling of chains, poll time-outs, OS scheduler fairness (ParallelTempering.run_for's clock loop is decided under C15)",
     "worker chains are recording stub chains (get_last / replace_last / take_step / probs / inv_temp contract of the samplers, checked in C03)",
     "pyint loop-summarisation lemma for advance()",
 ]
